@@ -24,8 +24,10 @@ def _c01_units(prefix, prop, cq, ct):
                 quick=dict(cases=cq, shards=1, min_eval=500), thorough=dict(cases=ct, shards=2, min_eval=5000)))
     return us
 
-def _fz(name, src, cflags, rule, qruns=150000, truns=20000000):
-    return U(name, 'fuzz/' + src, flavour='fuzz', kind='libfuzzer', cflags=cflags, libs=['-lpugixml'], rule=rule,
+import os as _os
+_HARNESS = _os.path.join(_os.path.dirname(_os.path.dirname(_os.path.abspath(__file__))), 'harness')
+def _fz(name, src, cflags, rule, qruns=150000, truns=20000000, dictfile=None):
+    return U(name, 'fuzz/' + src, flavour='fuzz', kind='libfuzzer', cflags=cflags, libs=['-lpugixml'], rule=rule, dict=(_os.path.join(_HARNESS, 'fuzz', dictfile) if dictfile else None),
              quick=dict(runs=qruns, seconds=60, max_len=4096, min_eval=20000), thorough=dict(runs=truns, seconds=900, max_len=4096, min_eval=1000000))
 
 _FZ_LOAD_RULE = 'coverage-guided bytes: byte 0 selects one of 30 target types (class with 18 members and validators, containers, maps with string / int / float / timestamp / enum keys, tuples, arrays, byte containers, optionals, chrono, dynamic trees of 4 shapes, scalars), byte 1 policies x medium (memory, istringstream, short-read and non-seekable streambuf, chunk size); seeds = valid documents of every selector; non-trivial = the load returned normally or failed above the syntax level (mismatch, overflow, range, validation, UTF)'
@@ -34,11 +36,11 @@ PROPERTIES = {
     level='exploration', exhaustive_claim=False,
     rule='libFuzzer campaigns (ASan + UBSan, -malloc_limit_mb=512, -timeout=25 s per input, -max_len 4096) over 4 loader targets + converters + UTF codecs + encoded stream reader, plus a generated depth / size ladder in isolated children',
     assumptions=TRUSTED + ['libFuzzer (clang 14) and its coverage feedback', 'memory oracle: a single allocation above 512 MiB or an RSS above 3 GiB for an input of at most 4 KiB is out of proportion', 'hang oracle: no result within 25 s (confirmed 3 times) for an input of at most 4 KiB'],
-    units=[_fz('fz_load_msgpack', 'fz_load.cpp', ['-DFZ_ARCH=0'], 'MessagePack: ' + _FZ_LOAD_RULE),
-           _fz('fz_load_json', 'fz_load.cpp', ['-DFZ_ARCH=1'], 'JSON: ' + _FZ_LOAD_RULE, qruns=100000),
-           _fz('fz_load_xml', 'fz_load.cpp', ['-DFZ_ARCH=2'], 'XML: ' + _FZ_LOAD_RULE, qruns=100000),
-           _fz('fz_load_csv', 'fz_load.cpp', ['-DFZ_ARCH=3'], 'CSV: bytes as a table for vector<typed row>, vector<map>, list; separators , and ;; all media', qruns=150000),
-           _fz('fz_convert', 'fz_convert.cpp', [], 'strings in char / char16_t / char32_t / wchar_t for Convert::To of 34 target types (all integer widths, float, double, long double, bool, enum, 7 time_point and 7 duration precisions, CRawTime, tm, strings); in-target oracle: an accepted value prints to text that parses to the same value; non-trivial = converted, or the text holds a digit', qruns=600000),
+    units=[_fz('fz_load_msgpack', 'fz_load.cpp', ['-DFZ_ARCH=0'], 'MessagePack: ' + _FZ_LOAD_RULE, dictfile='msgpack.dict'),
+           _fz('fz_load_json', 'fz_load.cpp', ['-DFZ_ARCH=1'], 'JSON: ' + _FZ_LOAD_RULE, qruns=100000, dictfile='text.dict'),
+           _fz('fz_load_xml', 'fz_load.cpp', ['-DFZ_ARCH=2'], 'XML: ' + _FZ_LOAD_RULE, qruns=100000, dictfile='text.dict'),
+           _fz('fz_load_csv', 'fz_load.cpp', ['-DFZ_ARCH=3'], 'CSV: bytes as a table for vector<typed row>, vector<map>, list; separators , and ;; all media', qruns=150000, dictfile='text.dict'),
+           _fz('fz_convert', 'fz_convert.cpp', [], 'strings in char / char16_t / char32_t / wchar_t for Convert::To of 34 target types (all integer widths, float, double, long double, bool, enum, 7 time_point and 7 duration precisions, CRawTime, tm, strings); in-target oracle: an accepted value prints to text that parses to the same value; non-trivial = converted, or the text holds a digit', qruns=600000, dictfile='convert.dict'),
            _fz('fz_utf', 'fz_utf.cpp', [], 'code-unit sequences (8 / 16 / 32 bit) for Transcode, UtfN::Decode (LE and BE), UtfN::Encode into 3 target widths x 2 policies x 3 error marks; in-target oracle: iterator inside the input, existing output preserved, Skip output well-formed per ref_utf; non-trivial = ill-formed or longer than 3 units', qruns=600000),
            U('c02_ladder', 'c02_ladder.cpp', flavour='asan', libs=['-lpugixml'], isolate=True, cpu=20, quick=dict(cases=120, shards=12, min_eval=1000, timeout=900), thorough=dict(cases=1500, shards=16, min_eval=20000, timeout=7200)),
            _fz('fz_encoded_stream', 'fz_encoded_stream.cpp', [], 'bytes as an encoded stream for DetectEncoding (string and stream) and CEncodedStreamReader<char|char16_t|char32_t, 32|256> over istringstream / short-read streambuf; in-target oracle: end reached within size+64 ReadChunk calls, Skip output well-formed; non-trivial = several chunks, a BOM or a decoding error', qruns=400000)]),
